@@ -350,9 +350,42 @@ func (c05) Run(s *scn.Scn, x *sim.Exec) {
 	if len(s.Objects) == 0 {
 		return
 	}
-	vs, _ := c05Variants(s, x)
+	vs, wire0 := c05Variants(s, x)
 	if vs == nil {
 		return
+	}
+	if typ := s.Objects[0].Type; lazyCapable(typ) && len(wire0) > 0 {
+		// The converse clause on messages nobody has looked into yet: two lazy decodes of the same
+		// content from different valid encodings (map entries in another order, a non-minimal
+		// encoding), compared with Equal before anything else touches them. Whether the two really
+		// hold the same content is established afterwards, on separate eager decodes.
+		m0 := vs[0].m
+		sim.SetMapSeed(uint64(s.P["vseed"])*7 + 3)
+		w2, err := proto.MarshalOptions{AllowPartial: true}.Marshal(m0)
+		if t, ok := gen.ParseWire(m0.ProtoReflect().Descriptor(), wire0); ok && s.P["vseed"]%2 == 0 {
+			var st gen.DenormStats
+			gen.Denormalise(sim.NewRng(uint64(s.P["vseed"])^0xe9), t, 150, &st)
+			w2 = t.Encode()
+		}
+		if err == nil {
+			l1, e1 := decodeLazy(typ, wire0)
+			l2, e2 := decodeLazy(typ, w2)
+			g1, e3 := decodeEager(typ, wire0)
+			g2, e4 := decodeEager(typ, w2)
+			if e1 == nil && e2 == nil && e3 == nil && e4 == nil && sameDetBytes(g1, g2) {
+				var a, b bool
+				if p := sim.Protect(func() { a, b = proto.Equal(l1, l2), proto.Equal(l2, l1) }); p != "" {
+					x.Fail("panic:Equal", "proto.Equal panicked on two lazily decoded messages: %s", p)
+					return
+				}
+				x.Out.Evals++
+				x.Probe("equal-on-untouched-lazy-twins", 1)
+				if !a || !b {
+					x.Fail("identical-bytes-not-equal", "generated:%s: two messages decoded lazily from two valid encodings of the same content (%d and %d bytes; their eager decodes have byte-identical deterministic encodings) and not touched since: proto.Equal(a, b)=%v, proto.Equal(b, a)=%v", typ, len(wire0), len(w2), a, b)
+					return
+				}
+			}
+		}
 	}
 	mo := proto.MarshalOptions{AllowPartial: true, Deterministic: true}
 	first := map[string][]byte{}
